@@ -197,6 +197,18 @@ PROPS = {
                       "enclosing nested scheduler) to be done in the state implied by the events so far. Non-trivial = "
                       "the tree has at least one requirement edge.",
                  nontrivial=has_edges),
+    "C02": RProp("C02", 0, [20, 41], profile={"forever": 0.3, "exc": 0.4, "maxdur": 3, "window": 0.5},
+                 rule="C02: at every EStart/EBegin the job must not have started before; at every observed end of a run "
+                      "with verdict True every non-forever member must be done in the state implied by the events so far. "
+                      "Non-trivial = at least 3 jobs.",
+                 nontrivial=lambda cfg, r: len(cfg["jobs"]) > 3),
+    "C04": RProp("C04", 0, [41], profile={"crit": 0.5, "exc": 0.45, "timeout": 0.7, "root_timeout": 0.6, "maxdur": 4, "nested": 0.35},
+                 rule="C04: at every observed end of a run the verdict (True / False / raised exception identity) is compared "
+                      "with the classification (all non-forever done, some critical raised, timeout) of the state implied by the "
+                      "events so far; failed_time_out()/failed_critical() are compared at every poll. Non-trivial = the "
+                      "run is not a plain success.",
+                 nontrivial=lambda cfg, r: (r["notes"].get("outcome") or ["true"])[0] != "true" or any(
+                     j["sched"] and j["timeout"] is not None for j in cfg["jobs"])),
     "C14": RProp("C14", 0, [140], profile={"window": 0.6, "exc": 0.4},
                  rule="C14: at every quiescent point and after the run, the public predicates of every job (is_idle, "
                       "is_scheduled, is_running, is_done, result/exception identity) are compared with the state implied "
